@@ -883,6 +883,9 @@ func (st *AclState) applyAccountRemove(ch *aclrecordproto.AclAccountRemove, reco
 }
 
 func (st *AclState) applyReadKeyChange(ch *aclrecordproto.AclReadKeyChange, record *AclRecord, validate bool) error {
+	if ch == nil {
+		return ErrIncorrectReadKey
+	}
 	if validate {
 		err := st.contentValidator.ValidateReadKeyChange(ch, record.Identity)
 		if err != nil {
